@@ -31,19 +31,24 @@ func NewHighlighter(cfg Config) *Highlighter {
 func (hl *Highlighter) Get(code string) (ui.Text, []ui.Text) {
 	hl.cacheMutex.Lock()
 	defer hl.cacheMutex.Unlock()
+	verifTrace("GL", code)
 	if code == hl.cache.code {
+		verifTrace("GH", code, hl.cache.styledCode)
 		return hl.cache.styledCode, hl.cache.tips
 	}
 
 	lateCb := func(styledCode ui.Text) {
 		hl.cacheMutex.Lock()
+		verifTrace("LL", code)
 		if hl.cache.code != code {
 			// Late result was delivered after code has changed. Unlock and
 			// return.
+			verifTrace("LD", code, hl.cache.code)
 			hl.cacheMutex.Unlock()
 			return
 		}
 		hl.cache.styledCode = styledCode
+		verifTrace("LS", code, styledCode)
 		// The channel send below might block, so unlock the state first.
 		hl.cacheMutex.Unlock()
 		hl.lates <- struct{}{}
@@ -52,6 +57,7 @@ func (hl *Highlighter) Get(code string) (ui.Text, []ui.Text) {
 	styledCode, tips := highlight(code, hl.cfg, lateCb)
 
 	hl.cache = cache{code, styledCode, tips}
+	verifTrace("GM", code, styledCode)
 	return styledCode, tips
 }
 
@@ -65,4 +71,5 @@ func (hl *Highlighter) InvalidateCache() {
 	hl.cacheMutex.Lock()
 	defer hl.cacheMutex.Unlock()
 	hl.cache = cache{}
+	verifTrace("IV")
 }
